@@ -59,6 +59,44 @@ fn tree(u: &mut Unstructured, depth: u8) -> arbitrary::Result<Spec> {
     }
 }
 
+/// the rest of the input as a stream: 2 bytes per value on the 1/8 grid; a zero high byte repeats the previous value (ties, flats)
+pub fn stream(u: &mut Unstructured, positive: bool, max: usize) -> Vec<Rat> {
+    let mut vals: Vec<Rat> = vec![];
+    while let Ok(b) = u.bytes(2) {
+        let k = i16::from_le_bytes([b[0], b[1]]) as i64;
+        let k = if b[1] == 0 { vals.last().map(|r: &Rat| r.0).unwrap_or(k) } else { k };
+        let k = if positive { k.abs().max(1) } else { k };
+        vals.push(Rat(k, 8));
+        if vals.len() >= max {
+            break;
+        }
+    }
+    vals
+}
+
+/// Properties served by the `fz_single` target: single views against their definitional / metamorphic oracles.
+pub const SINGLE_PROPS: [&str; 11] = ["C02", "C03", "C04", "C05", "C06", "C07", "C10", "C11", "C12", "C13", "C14"];
+/// Decode fuzzer bytes into (clause id, case): the case has exactly the shape that clause's own generator produces, so the
+/// clause's check function is the oracle and `vcheck replay` can re-execute the JSON form.
+pub fn decode_single(prop: &str, data: &[u8]) -> Option<(String, Case)> {
+    let mut u = Unstructured::new(data);
+    let u = &mut u;
+    match prop {
+        "C02" => crate::props::c02::fuzz_decode(u),
+        "C03" => crate::props::c03::fuzz_decode(u),
+        "C04" => crate::props::c04::fuzz_decode(u),
+        "C05" => crate::props::c05::fuzz_decode(u),
+        "C06" => crate::props::c06::fuzz_decode(u),
+        "C07" => crate::props::c07::fuzz_decode(u),
+        "C10" => crate::props::c10::fuzz_decode(u),
+        "C11" => crate::props::c11::fuzz_decode(u),
+        "C12" => crate::props::c12::fuzz_decode(u),
+        "C13" => crate::props::c13::fuzz_decode(u),
+        "C14" => crate::props::c14::fuzz_decode(u),
+        _ => None,
+    }
+}
+
 /// Decode fuzzer bytes into a case. Returns None when the bytes run out before a tree is complete.
 pub fn decode(data: &[u8]) -> Option<Case> {
     let mut u = Unstructured::new(data);
